@@ -20,57 +20,68 @@ def natural_cases():
     """name -> function(env, U) performing a call that must raise"""
     from pysmt import typing as T
 
-    def sub_ill(env, U):
-        U["f1"].substitute({U["x"]: env.formula_manager.Real(1)})
+    def sub_ill(env, U, cache):
+        # the retry passes the very same argument objects (a caller's `subs` dictionary)
+        U["f1"].substitute(cache.setdefault("d", {U["x"]: env.formula_manager.Real(1)}))
 
-    def sub_ill_deep(env, U):
-        U["f2"].substitute({U["z"]: env.formula_manager.TRUE()})
+    def sub_ill_deep(env, U, cache):
+        U["f2"].substitute(cache.setdefault("d", {U["z"]: env.formula_manager.TRUE()}))
 
-    def constr_ill(env, U):
+    def constr_ill(env, U, cache):
         env.formula_manager.Plus(U["x"], env.formula_manager.Real(1))
 
-    def constr_ill_bv(env, U):
+    def constr_ill_bv(env, U, cache):
         m = env.formula_manager
         m.BVAdd(m.Symbol("v8", env.type_manager.BVType(8)), m.Symbol("v16", env.type_manager.BVType(16)))
 
-    def constr_ill_fun(env, U):
+    def constr_ill_fun(env, U, cache):
         m = env.formula_manager
-        m.Function(m.Symbol("f", env.type_manager.FunctionType(T.INT, [T.INT])), [m.Real(1)])
+        m.Function(m.Symbol("f", env.type_manager.FunctionType(T.INT, [T.INT])), cache.setdefault("a", [m.Real(1)]))
 
-    def constr_ill_quant(env, U):
+    def constr_ill_quant(env, U, cache):
         m = env.formula_manager
         m.ForAll([U["x"]], m.Plus(U["x"], m.Int(1)))
 
-    def cnf_quant(env, U):
+    def cnf_quant(env, U, cache):
         from pysmt.rewritings import cnf
         cnf(U["f2"], env)
 
-    def sub_nonterm(env, U):
+    def sub_nonterm(env, U, cache):
         m = env.formula_manager
-        U["f1"].substitute({m.Symbol("f", env.type_manager.FunctionType(T.INT, [T.INT])): U["x"]})
+        U["f1"].substitute(cache.setdefault("d", {m.Symbol("f", env.type_manager.FunctionType(T.INT, [T.INT])): U["x"]}))
 
-    def fresh_fail(env, U):
+    def fresh_fail(env, U, cache):
         env.formula_manager.new_fresh_symbol(None)
 
-    def equals_bool(env, U):
+    def equals_bool(env, U, cache):
         env.formula_manager.Equals(U["a"], U["b"])
 
-    def hr_fail(env, U):
+    def hr_fail(env, U, cache):
         from pysmt.parsing import HRParser
         HRParser(env).parse("(x + ) < y")
 
-    def simplify_foreign(env, U):
+    def simplify_foreign(env, U, cache):
         # a formula of another environment makes the substituter reject its keys
-        other = tv.fresh_env()
-        from pysmt.environment import pop_env
-        pop_env()
-        k = other.formula_manager.Symbol("x", T.INT)
-        U["f1"].substitute({k: U["y"]})
+        if "d" not in cache:
+            other = tv.fresh_env()
+            from pysmt.environment import pop_env
+            pop_env()
+            k = other.formula_manager.Symbol("x", T.INT)
+            cache["d"] = {k: U["y"]}
+        U["f1"].substitute(cache["d"])
+
+    def sub_foreign_value(env, U, cache):
+        if "d" not in cache:
+            other = tv.fresh_env()
+            from pysmt.environment import pop_env
+            pop_env()
+            cache["d"] = {U["x"]: other.formula_manager.Symbol("foreign", T.INT)}
+        U["f1"].substitute(cache["d"])
     return {"substitute ill-typed value": sub_ill, "substitute ill-typed value under quantifier": sub_ill_deep,
             "ill-typed Plus": constr_ill, "ill-typed BVAdd": constr_ill_bv, "ill-typed Function": constr_ill_fun,
             "ill-typed ForAll": constr_ill_quant, "cnf of a quantifier": cnf_quant, "substitute non-term key": sub_nonterm,
             "fresh symbol with bad type": fresh_fail, "Equals on Booleans": equals_bool, "HR syntax error": hr_fail,
-            "substitute foreign key": simplify_foreign}
+            "substitute foreign key": simplify_foreign, "substitute foreign value": sub_foreign_value}
 
 
 PARSER_SCRIPTS = [
@@ -107,8 +118,9 @@ def check_natural(env_unused, inst):
             U = c15_xh.universe(env)
             fn = natural_cases()[which]
             raised = False
+            cache = {}
             try:
-                fn(env, U)
+                fn(env, U, cache)
             except Exception:
                 raised = True
             if not raised:
@@ -116,7 +128,7 @@ def check_natural(env_unused, inst):
             # the failing call repeated must fail the same way (it never happened)
             again = False
             try:
-                fn(env, U)
+                fn(env, U, cache)
             except Exception:
                 again = True
             got = c15_xh.probes(env, U)
